@@ -522,7 +522,7 @@ macro_rules! __destructure_struct {
         }
         $($_3:tt)*
     ) => (
-        compile_error!{"`..` patterns are not supported in top-level struct patterns"}
+        $crate::__::compile_error!{"`..` patterns are not supported in top-level struct patterns"}
     )
 }
 
